@@ -93,8 +93,10 @@ Definition made_cluster (o : oracles) (m : loaded) (src : files) : files :=
   (if has "clusters.peakToTrough.npy" src then [] else [mk o "clusters.peakToTrough.npy" DF64 [n_clu m]]) ++
   [mk o "clusters.amps.npy" DF64 [n_clu m]].
 
-(* make_channel_objects: rawInd[probe == p] = channel_map[probe == p] - offset; offset += max(channel_map[probe == p]),
-   probes visited in increasing order (np.unique).  Arithmetic in Z: the regime (Corr) excludes wrap-around. *)
+(* make_channel_objects: rawInd[probe == p] = channel_map[probe == p] - offset; offset = max(channel_map[probe == p])
+   (repaired, /repo 249be62 = fix-c14 d55d2ca: the previous probe's maximum IS the next offset, as Merger.write_channel_data
+   shifts; it used to be accumulated with +=, wrong from the third probe on), probes visited in increasing order
+   (np.unique).  Arithmetic in Z: the regime (Corr) excludes wrap-around. *)
 Fixpoint usort_insert (x : Z) (l : list Z) : list Z :=
   match l with
   | [] => [x]
@@ -107,7 +109,7 @@ Definition sel_max (probes cmap : list Z) (p : Z) : Z :=
 Fixpoint probe_offsets (ps : list Z) (probes cmap : list Z) (off : Z) : list (Z * Z) :=
   match ps with
   | [] => []
-  | p :: r => (p, off) :: probe_offsets r probes cmap (off + sel_max probes cmap p)
+  | p :: r => (p, off) :: probe_offsets r probes cmap (sel_max probes cmap p)
   end.
 Fixpoint zassoc (k : Z) (l : list (Z * Z)) : Z :=
   match l with [] => 0 | (k', v) :: r => if k =? k' then v else zassoc k r end.
